@@ -42,6 +42,19 @@ NAMES = {
     'D': {'iso': 'DDD', 'rr': 'ddd', 'jol': 'ddd', 'udf': 'ddd'},
     'Y': {'iso': 'YYY', 'rr': 'yyy', 'jol': 'yyy', 'udf': 'yyy'},
 }
+# the second ISO9660 (+ Rock Ridge) name a file gets by add_hard_link (model action AddLink).  Directory
+# order decides the order in which pycdlib places boot files, so some aliases sort before the
+# original name and every other boot file (I, M, Z), others after (A, E, K):
+#   ALINK.BIN < EFIBOOT.IMG < ISOLINUX.BIN;  DMAC.IMG < EFIBOOT.IMG < MACBOOT.IMG (the alias swaps the
+#   name order of the EFI and Mac images);  EFIBOOT.IMG < ... < ZEFI.IMG
+ALIAS = {
+    'A': {'iso': 'ZALINK.BIN;1', 'rr': 'zalink.bin'},
+    'I': {'iso': 'ALINK.BIN;1', 'rr': 'alink.bin'},
+    'E': {'iso': 'ZEFI.IMG;1', 'rr': 'zefi.img'},
+    'M': {'iso': 'DMAC.IMG;1', 'rr': 'dmac.img'},
+    'K': {'iso': 'LKLINK.IMG;1', 'rr': 'lklink.img'},
+    'Z': {'iso': 'BZLINK.BIN;1', 'rr': 'bzlink.bin'},
+}
 # namespace configurations; the catalog gets a different name in each
 CFGS = {
     'plain': {'level': 1, 'joliet': None, 'rr': None, 'udf': None, 'mode': 'lazy',
@@ -150,6 +163,7 @@ INVARIANT InvEntriesLive
 INVARIANT InvPatchOnlyWithEltorito
 INVARIANT InvShape
 INVARIANT InvRmEltoritoInverse
+INVARIANT InvLinkClass
 ACTION_CONSTRAINT ActionProps
 ACTION_CONSTRAINT %(dumper)s
 VIEW View
@@ -242,6 +256,9 @@ class Replay(object):
         det.reset()
         self.iso = pycdlib.PyCdlib(always_consistent=(cfg['mode'] == 'always'))
         self.iso.new(interchange_level=cfg['level'], joliet=cfg['joliet'], rock_ridge=cfg['rr'], udf=cfg['udf'])
+        # files whose alias this driver has made and not removed again (bookkeeping of the calls made,
+        # needed to spell out "every name" of RmHardLink/all; nothing is judged with it)
+        self.aliased = set()
 
     def call(self, act):
         """'ok' | 'refuse' (PyCdlibInvalidInput) | 'error:<class>'"""
@@ -259,10 +276,27 @@ class Replay(object):
 
     def do_RmFile(self, a):
         self.iso.rm_file(iso_path=_path('iso', a['n'], self.cfg))
+        self.aliased.discard(a['n'])
+
+    def do_AddLink(self, a):
+        kw = {'rr_name': ALIAS[a['n']]['rr']} if self.cfg['rr'] else {}
+        self.iso.add_hard_link(iso_old_path=_path('iso', a['n'], self.cfg), iso_new_path='/' + ALIAS[a['n']]['iso'], **kw)
+        self.aliased.add(a['n'])
+
+    def do_RmLink(self, a):
+        self.iso.rm_hard_link(iso_path='/' + ALIAS[a['n']]['iso'])
+        self.aliased.discard(a['n'])
+
+    def do_RmFileViaLink(self, a):
+        self.iso.rm_file(iso_path='/' + ALIAS[a['n']]['iso'])
+        self.aliased.discard(a['n'])
 
     def do_RmHardLink(self, a):
         self.iso.rm_hard_link(iso_path=_path('iso', a['n'], self.cfg))
         if a['scope'] == 'all':
+            if a['n'] in self.aliased:
+                self.iso.rm_hard_link(iso_path='/' + ALIAS[a['n']]['iso'])
+                self.aliased.discard(a['n'])
             if self.cfg['joliet']:
                 self.iso.rm_hard_link(joliet_path=_path('jol', a['n'], self.cfg))
             if self.cfg['udf']:
@@ -333,13 +367,18 @@ class Replay(object):
         return out.getvalue(), ''
 
 
-def ns_paths(cfg, n, vis):
-    """[(ns, get_file keyword, path)] under which content named n with visibility vis is reachable"""
+def ns_paths(cfg, n, vis, alias=False):
+    """[(ns, get_file keyword, path)] under which content named n with visibility vis (and a second
+    ISO9660 name if alias) is reachable"""
     out = []
     if vis == 'all':
         out.append(('iso', 'iso_path', _path('iso', n, cfg)))
         if cfg['rr']:
             out.append(('rr', 'rr_path', '/' + (cfg['cat'] if n == 'C' else NAMES[n])['rr']))
+    if alias and vis != 'none':
+        out.append(('iso', 'iso_path', '/' + ALIAS[n]['iso']))
+        if cfg['rr']:
+            out.append(('rr', 'rr_path', '/' + ALIAS[n]['rr']))
     if vis in ('all', 'sec'):
         if cfg['joliet']:
             out.append(('jol', 'joliet_path', _path('jol', n, cfg)))
@@ -358,7 +397,7 @@ def readback(rp, iso, src, exp):
             cat.append({'src': src, 'ns': ns, 'path': path, 'ok': data is not None, 'err': err,
                         'len': len(data or b''), 'sha': sha(data or b'')})
         for k, e in enumerate(exp['entries']):
-            for (ns, key, path) in ns_paths(cfg, e['name'], e['vis']):
+            for (ns, key, path) in ns_paths(cfg, e['name'], e['vis'], e.get('alias', False)):
                 data, err = rp.read(iso, **{key: path})
                 r = {'src': src, 'k': k + 1, 'ns': ns, 'path': path, 'ok': data is not None, 'err': err}
                 r.update(dec_elt.bit_fields(data or b''))
@@ -368,22 +407,22 @@ def readback(rp, iso, src, exp):
 
 def build_expect(exp, cfg):
     """the model's expected abstract state with ids realised for configuration cfg"""
-    def names(n, vis):
-        return [{'ns': ns, 'path': p} for (ns, _, p) in ns_paths(cfg, n, vis) if ns in ('iso', 'jol')]
+    def names(n, vis, alias=False):
+        return [{'ns': ns, 'path': p} for (ns, _, p) in ns_paths(cfg, n, vis, alias) if ns in ('iso', 'jol')]
     entries = []
     for e in exp['entries']:
         b = blob(e['blob'])
         assert len(b) == e['len'], 'blob table of the harness differs from the model'
         entries.append({'media': e['media'], 'count': e['count'], 'ind': e['ind'], 'plat': e['plat'],
                         'systype': e['systype'], 'seg': e['seg'], 'patched': e['patched'], 'loose': e['loose'], 'len': e['len'],
-                        'names': names(e['name'], e['vis']), 'sha_file': sha(b), 'sha_file_nobit': sha(nobit(b)),
+                        'names': names(e['name'], e['vis'], e.get('alias', False)), 'sha_file': sha(b), 'sha_file_nobit': sha(nobit(b)),
                         'csum_hex': csum32(b),
                         'media_sha': sha(b) if e['media'] in FLOPPY and FLOPPY[e['media']] == len(b) and not e['loose'] else ''})
     files = []
     for f in exp['files']:
         b = blob(f['blob'])
         assert len(b) == f['len'], 'blob table of the harness differs from the model'
-        for nm in names(f['name'], f['vis']):
+        for nm in names(f['name'], f['vis'], f.get('alias', False)):
             files.append({'ns': nm['ns'], 'path': nm['path'], 'len': f['len'], 'sha': sha(b),
                           'sha_nobit': sha(nobit(b)), 'patched': f['patched'], 'loose': f['loose']})
     hyb = dict(exp['hyb'])
@@ -537,51 +576,83 @@ def facts(hist, cfgname, upto=None):
     steps = hist['h'] if upto is None else hist['h'][:upto]
     acts = [s['act'] for s in steps if s['out'] == 'ok']
     f = set()
-    files = {}         # name -> blob
-    ents = []          # entries of the current catalog
+    files = {}         # name -> link class {'blob', 'vis' (of the original names), 'alias'}
+    ents = []          # entries of the current catalog; e['file'] is the link class it was made for
     hyb = None
     bit_seen = False
     last_edit = None
     secondary = bool(CFGS[cfgname]['joliet'] or CFGS[cfgname]['udf'])
     reopened = False
     udf_rm_after_reopen = False
+    stale_bit = False  # a boot info table that the last open_fp did not recognise (see Reopen below)
+
+    def gone(name):
+        fl = files.pop(name, None)
+        if fl is not None:
+            fl['vis'] = 'none'
+            fl['alias'] = False
+
+    def vis(e):
+        """what is left of the boot file's names in this configuration: 'all' = an ISO9660 name (the
+        original one or the alias), 'sec' = Joliet/UDF names only, 'none' = no name at all"""
+        fl = e['file']
+        if fl['vis'] == 'all' or fl['alias']:
+            return 'all'
+        return 'sec' if (fl['vis'] == 'sec' and secondary) else 'none'
+
+    def place_name(e):
+        """the name that decides when pycdlib places this boot file: its first ISO9660 name"""
+        fl = e['file']
+        nm = ([NAMES[e['name']]['iso']] if fl['vis'] == 'all' else []) + ([ALIAS[e['name']]['iso']] if fl['alias'] else [])
+        return min(nm) if nm else 'AAAAAAAA.;1'
+
     for a in acts:
         n = a['a']
         if n == 'Reopen':
             reopened = True
-        if n in ('RmFile', 'RmHardLink', 'RmEltorito') and reopened and CFGS[cfgname]['udf']:
+        if n in ('RmFile', 'RmFileViaLink', 'RmHardLink', 'RmEltorito') and reopened and CFGS[cfgname]['udf']:
             udf_rm_after_reopen = True
         if n == 'AddFile':
-            files[a['n']] = a['blob']
+            files[a['n']] = {'blob': a['blob'], 'vis': 'all', 'alias': False, 'bit': False}
+        elif n == 'AddLink':
+            files[a['n']]['alias'] = True
+        elif n == 'RmLink':
+            files[a['n']]['alias'] = False
         elif n == 'AddEltorito':
             sp = a['spec']
             if ents and not sp['bootable']:
                 f.add('nonbootable_section_entry')
-            ln = BLOBINFO[files[a['f']]]['len']
+            ln = BLOBINFO[files[a['f']]['blob']]['len']
             cnt = (sp['load'] or ((ln + 2047) // 2048) * 4) if sp['media'] == 'noemul' else 1
             plat = sp['platform'] if not ents else (239 if sp['efi'] else ents[0]['vplat'])
-            ents.append({'name': a['f'], 'vis': 'all', 'plat': plat, 'vplat': sp['platform'] if not ents else ents[0]['vplat'],
-                         'count': cnt})
+            ents.append({'name': a['f'], 'file': files[a['f']], 'plat': plat,
+                         'vplat': sp['platform'] if not ents else ents[0]['vplat'], 'count': cnt})
             bit_seen = bit_seen or sp['bit']
+            files[a['f']]['bit'] = files[a['f']]['bit'] or sp['bit']
         elif n == 'RmHardLink':
-            for e in ents:
-                if e['name'] == a['n'] and e['vis'] == 'all':
-                    e['vis'] = 'none' if (a['scope'] == 'all' or not secondary) else 'sec'
             if a['scope'] == 'all':
-                files.pop(a['n'], None)
-        elif n == 'RmFile':
-            files.pop(a['n'], None)
+                gone(a['n'])
+            else:
+                files[a['n']]['vis'] = 'sec'
+        elif n in ('RmFile', 'RmFileViaLink'):
+            gone(a['n'])
         elif n == 'RmEltorito':
-            if any(e['vis'] == 'none' for e in ents):
+            if any(vis(e) == 'none' for e in ents):
                 f.add('after_rm_eltorito_with_unlinked_boot_file')
             if bit_seen:
                 f.add('rm_eltorito_after_boot_info_table')
             ents = []
+            f.discard('nonbootable_section_entry')        # a fact of the catalog that is gone
+            stale_bit = False
         elif n == 'Reopen':
-            if any(e['vis'] == 'none' for e in ents):
+            if any(vis(e) == 'none' for e in ents):
                 f.add('unlinked_boot_file_reopened')
-            if any(e['vis'] == 'sec' for e in ents):
+            if any(vis(e) == 'sec' for e in ents):
                 f.add('boot_file_without_iso_name_reopened')
+            # open_fp looks for the boot info table before the Joliet/UDF walk has told it the exact length
+            # of a boot file without ISO9660 name: unless that is the load size, the table is not recognised
+            if any(vis(e) == 'sec' and e['file']['bit'] and BLOBINFO[e['file']['blob']]['len'] != e['count'] * 512 for e in ents):
+                stale_bit = True
             if len(ents) == 32:
                 f.add('catalog_full')
             if hyb is not None:
@@ -602,11 +673,15 @@ def facts(hist, cfgname, upto=None):
         else:
             last_edit = 'edit'
             f.discard('isohybrid_on_consistent_object')     # the edit marks the metadata stale
+            if stale_bit and n != 'RmEltorito':
+                f.add('boot_info_table_without_iso_name_edited_after_reopen')
     if len(ents) == 32:
         f.add('catalog_full')          # validation + initial + 31 x (header + entry) = 64 slots = the whole sector
-    if any(e['vis'] == 'sec' for e in ents):
+    if any(e['file']['alias'] for e in ents):
+        f.add('boot_file_has_alias')           # a boot image with two ISO9660 names (hard link)
+    if any(vis(e) == 'sec' for e in ents):
         f.add('boot_file_without_iso_name')
-    if any(e['vis'] == 'none' for e in ents):
+    if any(vis(e) == 'none' for e in ents):
         f.add('unlinked_boot_file')
     if udf_rm_after_reopen:
         f.add('udf_name_removed_after_reopen')
@@ -629,10 +704,10 @@ def facts(hist, cfgname, upto=None):
             f.add('bios_hybrid_with_efi_section')
         if len(efis) > (2 if hyb['mac'] else 1 if efi else 0):
             f.add('more_efi_sections_than_used')
-        if any(ents[k]['name'] == ents[j]['name'] for k in efis[:2] for j in range(k)):
+        if any(ents[k]['file'] is ents[j]['file'] for k in efis[:2] for j in range(k)):
             f.add('efi_section_shares_file_with_earlier_entry')
         if len(efis) >= 2:
-            order = sorted(efis, key=lambda k: NAMES[ents[k]['name']]['iso'] if ents[k]['vis'] == 'all' else 'AAAAAAAA.;1')
+            order = sorted(efis, key=lambda k: place_name(ents[k]))
             if order != efis:
                 f.add('efi_sections_name_order_differs_from_catalog_order')
         if efis and ents[efis[0]]['count'] != ents[-1]['count']:
@@ -644,6 +719,35 @@ def facts(hist, cfgname, upto=None):
         if not ents:
             f.add('hybrid_without_eltorito')
     return f
+
+
+def link_coverage(hists):
+    """measured: how the behaviours replayed exercise second ISO9660 names of boot files - per role of
+    the entry (bios = initial entry, efi/mac = the sections a hybrid uses, section = any other) whether
+    the link was made before/after the add_eltorito of that file and before/after add_isohybrid"""
+    cov = {}
+    nlink = 0
+    for hh in hists:
+        oks = [s['act'] for s in hh['h'] if s['out'] == 'ok']
+        if any(a['a'] in ('AddLink', 'RmLink', 'RmFileViaLink') for a in oks):
+            nlink += 1
+        hyb = hh['exp']['hyb']
+        t_hyb = max([k for k, a in enumerate(oks) if a['a'] == 'AddIsohybrid'] or [-1])
+        for k, e in enumerate(hh['exp']['entries']):
+            if not e.get('alias'):
+                continue
+            role = 'bios' if k == 0 else 'efi' if (hyb['on'] and hyb['efi'] and k + 1 == hyb['efik']) else \
+                'mac' if (hyb['on'] and hyb['mac'] and k + 1 == hyb['mack']) else 'section'
+            t_link = max(j for j, a in enumerate(oks) if a['a'] == 'AddLink' and a['n'] == e['name'])
+            t_elt = min(j for j, a in enumerate(oks) if a['a'] == 'AddEltorito' and a['f'] == e['name'])
+            keys = ['%s:link_%s_add_eltorito' % (role, 'before' if t_link < t_elt else 'after')]
+            if hyb['on']:
+                keys.append('%s:link_%s_add_isohybrid' % (role, 'before' if t_link < t_hyb else 'after'))
+            if e['vis'] != 'all':
+                keys.append('%s:alias_is_the_only_iso9660_name' % role)
+            for key in keys:
+                cov[key] = cov.get(key, 0) + 1
+    return {'behaviours_with_link_actions': nlink, 'aliased_boot_entries': dict(sorted(cov.items()))}
 
 
 def finish_tlc(ctx, stats_list):
@@ -748,6 +852,12 @@ def c11_circumstance(clause, hist, cfgname, item):
         return '%s/%s:%s->%s' % (d['act'], d['why'] or 'accepted', d['want'], ':'.join(d['got'].split(':')[:2]))
     if clause == 'ReadBackPossible' and 'UDF Anchors' in item.get('open_error', '') and 'udf_name_removed_after_reopen' in fs:
         return 'udf_name_removed_after_reopen'                   # not El Torito's: UDF space accounting
+    if clause == 'ReadBackPossible' and 'nonbootable_section_entry' in fs and \
+            'El Torito section header specified' in item.get('open_error', ''):
+        return 'nonbootable_section_entry'                       # the parser's own message for that defect
+    if (clause == 'BootInfoTable.stored' or (clause.startswith('BootInfoTable.read.') and clause.split('.')[-1] in ('jol', 'udf'))) \
+            and 'boot_info_table_without_iso_name_edited_after_reopen' in fs:
+        return 'boot_info_table_without_iso_name_edited_after_reopen'
     if clause in ('CatalogReachableAsFile.read.live.udf', 'CatalogReachableAsFile.read.open.udf', 'BootInfoTable.read.live.udf'):
         return 'udf_name'                                        # fail on every UDF image, whatever the history
     if 'after_rm_eltorito_with_unlinked_boot_file' in fs:
@@ -810,7 +920,7 @@ def run(ctx):
     plan = []     # (profile, maxlen, maxrefuse, maxgen, simulate, depth, cfgs, cap)
     base_cfgs = ['plain', 'jol', 'rr', 'udf', 'all']
     if quick:
-        plan += [('c11q', 4, 1, 1, None, None, base_cfgs, 1100),
+        plan += [('c11q', 4, 1, 1, None, None, base_cfgs, 3400),
                  ('c11m', 2, 1, 0, None, None, ['plain', 'all'], 150),
                  ('c11s', 9, 2, 2, 40, 10, base_cfgs + ['jolrr'], 350),
                  ('c11n', 80, 2, 1, 1, 81, ['plain', 'all'], 70)]
@@ -887,13 +997,15 @@ def run(ctx):
     ctx.coverage.update({
         'traces_validated_against_impl': len(items),
         'evaluations': len(items), 'distinct_nontrivial': nuniq,
-        'rule': 'behaviours of MC_boot (every transition of the bounded graphs c11q/c11m once, plus simulated '
+        'rule': 'behaviours of MC_boot (every transition of the bounded graphs c11q/c11m once - c11q includes second ISO9660 '
+                'names by add_hard_link -, plus simulated '
                 'behaviours c11s/c11t/c11n seeded by --seed) x namespace configurations; distinct = distinct '
                 '(decoded image report, read-back, expectation) triples judged by TLC',
         'bootable_observations': boot,
         'max_entries_observed': max([len(it['expect']['entries']) for it in items] or [0]),
         'entry_counts_observed': sorted(set(len(it['expect']['entries']) for it in items)),
         'refused_33rd_entry_observed': sum(1 for hh in hists for st in hh['h'] if st['why'] == 'too_many'),
+        'second_names': link_coverage(hists),
         'configurations': sorted(set(c for (_, c) in tasks)),
         'judge_states': sum(s.get('generated', 0) for s in jstats),
         'exhaustive': False,
@@ -903,7 +1015,11 @@ def run(ctx):
                                                                   'entries': hists[i]['exp']['entries'][:3]}})
     ctx.assumptions += ['decoders/eltorito.py implements El Torito 1.0 and ECMA-119 directory records correctly',
                         'SHA-256 equality stands for byte equality',
-                        'behaviours ending in a refusal that pycdlib raises after mutating its object are C14\'s and are not judged here']
+                        'behaviours ending in a refusal that pycdlib raises after mutating its object are C14\'s and are not judged here',
+                        'second names (hard links): one alias per file, ISO9660 (+Rock Ridge) only, always made from the original '
+                        'ISO9660 name; the alias is never the path given to add_eltorito/add_hard_link, and a name is not re-added '
+                        'while its record exists; removals (rm_file by either name, rm_hard_link of either name or of every name) '
+                        'are all offered on aliased files']
 
 
 if __name__ == '__main__':
